@@ -659,6 +659,32 @@ def render(progs: dict) -> str:
     return "\n".join(L) + "\n"
 
 
+REFERENCE = {
+    "recv": [".acquire", ".mkSig", ".incSeq", ".dropIfFullNew", ".append", ".notifyAll", ".release"],
+    "get": [".acquire", ".skipIfNonEmpty 1", ".wait", ".pop", ".release"],
+    "discard": [".acquire", ".clear", ".release"],
+    "len": [".acquire", ".readLen", ".release"],
+    "ready": [".acquire", ".readLen", ".release"],
+    "plainWait": [".waitFor false", ".retRet"],
+    "taskWait": [".waitFor true", ".raiseIfStop", ".retRet"],
+}
+_FNAMES = {"recv": "_receive_signal", "get": "get_next_signal", "discard": "discard_all", "len": "get_queue_length",
+           "ready": "has_signal_ready", "plainWait": "_wait_for_condition", "taskWait": "wait_for_condition"}
+
+
+def render_reference(why: str) -> str:
+    """What is written when the source could not be translated: the reference programs (`RecvConc.P0`), so that the model
+    driver does not run a stale file from an earlier run; the failed translation itself is reported as a broken link."""
+    progs = {}
+    for k, code in REFERENCE.items():
+        em = _Emit(_FNAMES[k])
+        em.code = [(ins, "(reference program: the source could not be translated)", 0) for ins in code]
+        progs[k] = em
+    first = why.replace("-/", "- /").replace("/-", "/ -").splitlines()[0][:160]
+    return render(progs).replace("# GENERATED by harness/tr_recvprog.py — do not edit",
+                                 "# GENERATED by harness/tr_recvprog.py — do not edit\n\nTRANSLATION FAILED (" + first + "): reference programs written instead.")
+
+
 def signature(progs: dict) -> dict:
     """plain-data view of the programs (for the harness / evidence)"""
     return {k: [ins for (ins, _, _) in em.code] for k, em in progs.items()}
